@@ -2151,6 +2151,8 @@ STATEMENTS = {
 	'call_arguments': 'tranp\'s reading of the `arguments` subtree returns kinds (plain / named / * / **), labels, values and order; CPython\'s args and keywords are its two ordered sublists',
 	'classify_owners_modelled': 'every match_feature reachable from the generated resolver table is modelled',
 	'match_feature_consts': 'the string constants of every match_feature (and of Function._in_class_block), generated from node.py / definition/*.py on every run with the logic around them pinned by skeleton digests, are exactly the tags and words the model\'s predicates compare with',
+	'classify_enum / classify_enum_no_bases': 'for every class definition (any number of well-formed bases) Enum.match_feature accepts exactly when the generated word Enum is the text of one of the bases; without a base list it rejects',
+	'classify_class_def / classify_class_def_no_bases': 'the generated candidates of class_def are Enum then Class, and the first-match dispatch gives every class definition the kind Python\'s reading gives it (pyClassKind: Enum iff the bare name Enum is among the bases, at any position)',
 	'match_feature_owners': 'the classes that define a match_feature in the code are exactly the owners the model implements',
 	'match_feature_words': 'for every input the model\'s name-dependent predicates are equality / list-membership tests against the generated words: classmethod among the decorator names, __init__ as def name, self / cls as first parameter or var text, super as callee, list / dict as type name',
 	'classify_rows': 'candidate orders of function_def / name / var / class_def / getattr in the generated table are the ones the decision functions hard-code',
@@ -2189,7 +2191,7 @@ def run(ctx: Ctx) -> int:
 		translate_ok=tr_ok, translate_msg=tr_msg,
 		statements=STATEMENTS,
 		partial={
-			'proved': 'operator precedence/associativity/chaining, unary and boolean grouping, conditional expressions and lambdas (rule `expression` with parentheses re-entering it) over the ladder read from grammar.lark, for all terms; reading of call argument lists; first-match classification logic and its agreement with Python scoping under stated conventions',
+			'proved': 'operator precedence/associativity/chaining, unary and boolean grouping, conditional expressions and lambdas (rule `expression` with parentheses re-entering it) over the ladder read from grammar.lark, for all terms; reading of call argument lists; first-match classification logic and its agreement with Python scoping under stated conventions; class kinds (Enum / Class) for every base list; the model\'s name tests are equality tests against the words generated from the code',
 			'correspondence_only': 'lark\'s LALR result equals the reference parser on `expression` without trailers/displays (lark-vs-rd); match_feature models (classify); Argument label/unpacking (call-args); pyTable/astOfT are CPython\'s (pygroup)',
 			'search_only': 'attribute/index/slice chains and calls as operands (trailers), literals, list/tuple/dict displays, comprehensions, statement nesting, parameters, decorators, class bases (canon equality against CPython ast); the node properties that read children by index / relative path',
 		},
